@@ -9,6 +9,7 @@ from ..flow import Defs, backward_slice, slice_calls, slice_aggregates, rv_opera
 from ..tables import guard_context
 
 LEVEL = 'other'
+TECHNIQUE = 'static analysis: provenance of BufferedBody.bytes (library limiter, or a hand-written budget loop checked by dominating comparisons and budget updates) on the function with sync/async helpers inlined; guard contexts; who-is-handed-the-raw-body by family'
 CLAUSE = ('every construction of BufferedBody takes its bytes from a collect() over http_body_util::Limited::new(body, n) where n '
           'is the configured max_size passed through conversions only, or happens in the BodySizeLimit::Disabled arm; '
           'Enabled{max_size} always routes to the limited path with that max_size; nothing else in pavex buffers or polls the raw body.')
